@@ -932,7 +932,9 @@ class Check(PropertyCheck):
                   "(unconvertible_record_stops_reader, converted_accept_needs_convertible, converted_never_other); load written against a `read` environment (read(1) per prefix byte, read(n), read(1)) on a "
                   "buffered reader over ANY segmentation of the stream equals load on the whole content "
                   "(read_chunk_independent, load_chunk_independent, load_same_for_all_segmentations). The model is tied to the code differentially on values, raw/mutated files and real flows "
-                  "of every type; from_state∘get_state equality of flows is validated by the harness, not modelled.")
+                  "of every type; from_state∘get_state equality of flows is validated by the harness, not modelled: the clause 'identical state' has "
+                  "its codec half (load(dumps v) = mirror v ≈ v) and its record half (n records -> n flows in order) in Lean; that "
+                  "from_state(mirror(get_state f)) is f again for the flow and connection classes has no theorem (audit round 6, N1).")
     level_note = ("trusted: Lean kernel; the model/implementation tie is differential (random + defect-seeded inputs, not "
                   "exhaustive); float literals are tokens (Python float()/repr() assumed to round-trip; the model only decides "
                   "which literals float() accepts); of Flow.from_state∘compat.migrate_flow the version check and the type dispatch are transcribed and PREDICTED in the "
